@@ -508,6 +508,7 @@ func run(cx *lib.Ctx) {
 			checkJSONSource(cx, f, s, sc.texts, "family")
 		}
 		userFuncStream(cx, s, sc.texts)
+		variantStream(cx, s, sc.texts)
 		for _, bf := range bodyFamilies {
 			b := &evalgen.BodyCase{Scope: s, Items: bf.items, Src: bf.src}
 			bc, _, err := evalgen.DecodeBodyCase(b.Encode("C19", "body", nil))
